@@ -1640,17 +1640,22 @@ package server
 // by the suite, see DESIGN section 7.2)
 //@ unit (*Store).DatasetsToInternalIDs
 //@   prop C01 C03 C06
+//@   ghost lookedUpG int = 0
+//@   ghost foundG int = 0
 //@   requires s != nil
 //@   modifies none
+//@   ensures [C01,C03,C06:every-requested-name-is-looked-up-and-every-registered-one-contributes-its-id] lookedUpG == len(datasets) && len(result) == foundG
 //@   ensures [C01,C03,C06:no-more-scope-entries-than-requested-names] len(result) <= len(datasets)
 //@   at call Load#1 before
 //@     assert [C01,C03,C06:the-registry-is-asked-for-the-requested-name] cast(key, "string") == ds
 //@   at call Load#1
 //@     assume [TRUSTED-data-invariant:the-dataset-registry-holds-datasets] $result1 ==> typeof($result0) == typeid("*server.Dataset")
+//@     ghost lookedUpG := lookedUpG + 1
+//@     ghost foundG := $result1 ? foundG + 1 : foundG
 //@   at call append#1 before
 //@     assert [C01,C03,C06:a-scope-entry-is-the-internal-id-of-the-registered-dataset-with-the-requested-name] len($arg1) == 1 && $arg1[0] == cast(dataset, "*server.Dataset").InternalID && cast(dataset, "*server.Dataset").ID == ds && $arg0 == scopeArray
 //@   loop 1
-//@     invariant -1 <= $i && $i < len(datasets) && len(scopeArray) <= $i + 1
+//@     invariant -1 <= $i && $i < len(datasets) && len(scopeArray) <= $i + 1 && lookedUpG == $i + 1 && len(scopeArray) == foundG
 //@   safe typeassert
 // uri -> id: looked up under the key {uri-to-id index, bytes of the uri}, the key family assertIDForURI writes; the id is
 // the big-endian value stored there
